@@ -459,7 +459,24 @@ func (c *Client) Tx(ctx context.Context, hash []byte, prove bool) (*ctypes.Resul
 	}
 
 	// Validate the proof.
-	return res, res.Proof.Validate(l.DataHash)
+	if err := res.Proof.Validate(l.DataHash); err != nil {
+		return nil, err
+	}
+
+	// The proof only shows that res.Proof.Data is the transaction at position
+	// res.Proof.Proof.Index under the trusted data hash: the rest of the
+	// response must describe that very transaction.
+	if !bytes.Equal(res.Tx, res.Proof.Data) {
+		return nil, fmt.Errorf("tx %X does not match the proven tx %X", []byte(res.Tx), []byte(res.Proof.Data))
+	}
+	if txH := res.Tx.Hash(); !bytes.Equal(res.Hash, txH) {
+		return nil, fmt.Errorf("hash %X does not match the hash of the proven tx %X", res.Hash, txH)
+	}
+	if int64(res.Index) != res.Proof.Proof.Index {
+		return nil, fmt.Errorf("index %d does not match the proven index %d", res.Index, res.Proof.Proof.Index)
+	}
+
+	return res, nil
 }
 
 func (c *Client) TxSearch(
